@@ -313,17 +313,17 @@ class Space:
             self.discharged += 1
             return
         c = as_z3_bool(cond)
-        robust = getattr(cond, "neg_robust", None)
-        if robust is not None:
-            # first look for a counterexample with a margin (one that survives the replay in doubles)
-            if self.check(robust) == z3.sat:
-                raise Violation(msg, self.assignment_from(self.solver.model()))
         r = self.check(z3.Not(c))
         if r == z3.unsat:
             self.discharged += 1
             return
         if r == z3.sat:
-            raise Violation(msg, self.assignment_from(self.solver.model()))
+            model = self.solver.model()
+            robust = getattr(cond, "neg_robust", None)
+            if robust is not None and self.check(robust) == z3.sat:
+                # prefer a counterexample with a margin: one that survives the replay in doubles
+                model = self.solver.model()
+            raise Violation(msg, self.assignment_from(model))
         raise Inconclusive("unknown: " + msg)
 
     # numeric comparisons that carry the native slack in replay mode
